@@ -1,4 +1,8 @@
 pub mod c01;
+pub mod c05;
+pub mod c06;
+pub mod c07;
+pub mod c08;
 
 use crate::runner::{CheckMeta, ShardFn};
 
@@ -9,7 +13,7 @@ pub struct CheckDef {
 }
 
 pub fn all() -> Vec<CheckDef> {
-    vec![c01::def()]
+    vec![c01::def(), c05::def(), c06::def(), c07::def(), c08::def()]
 }
 
 pub fn find(id: &str) -> Option<CheckDef> {
@@ -17,6 +21,9 @@ pub fn find(id: &str) -> Option<CheckDef> {
 }
 
 /// Replay routines for case kinds that are not plain histories.
-pub fn replay_other(kind: &str, _fr: &crate::runner::FailRec, _dir: &std::path::Path) -> Option<crate::interp::Failure> {
-    Some(crate::interp::Failure::new("replay", format!("unknown case kind {}", kind)))
+pub fn replay_other(kind: &str, fr: &crate::runner::FailRec, dir: &std::path::Path) -> Option<crate::interp::Failure> {
+    match kind {
+        "c08" => c08::replay(fr, dir),
+        _ => Some(crate::interp::Failure::new("harness_panic", format!("unknown case kind {}", kind))),
+    }
 }
